@@ -33,7 +33,7 @@ func TestC04(t *testing.T) {
 	starts := []string{"ready", "ready", "nopipe", "held"}
 	ends := []string{"answer", "answer", "supersede", "ctxclose", "sockclose", "recvtimeout"}
 	retries := []int{0, 40, 60, 90, 120, 3600000}
-	n := r.Pick(600, 6000)
+	n := r.Pick(600, 24000)
 	for i := 0; i < n; i++ {
 		// enumerate (start x end x retry) cells cyclically, randomise the rest
 		sp := spec{NCtx: 1 + rnd.Intn(3), NPipes: 1 + rnd.Intn(4), RetryMs: retries[i%len(retries)],
